@@ -53,8 +53,8 @@ pub struct Scenario {
     #[serde(default = "out_default")]
     pub out_rel: String,
     /// the directory the output goes to does not exist (Err, or Ok with the file exactly right
-    /// from a writer that creates it); with a second caller both outputs go below it, and each
-    /// call must end as it ends when it runs alone
+    /// from a writer that creates it); with a second caller both outputs go below it, and a call
+    /// that succeeds when it runs alone must succeed next to the other one
     #[serde(default)]
     pub missing_parent: bool,
 }
@@ -337,6 +337,9 @@ pub fn scenario_shape(tier: &str, base_seed: u64, g: u64) -> Scenario {
             0 => "dir".into(),
             1 => "symlink".into(),
             2 => "dangling".into(),
+            // what an earlier run left: the right file cut short (before the end-of-file record,
+            // at a record boundary, anywhere), with one record at another address, or intact
+            3 | 4 => ["near:no-eof", "near:cut-record", "near:cut-byte", "near:addr-shift", "near:exact", "near:no-eof"][r.usize(6)].to_string(),
             _ => String::new(),
         },
         write_cap,
@@ -475,6 +478,19 @@ pub fn execute(sc: &Scenario, scratch: &Scratch, budget: u64) -> Result<RunOut, 
     } else {
         BuildResult { code: other, eeprom: img, flash_size: fsz, eeprom_size: esz, ram_size: rsz, ram_filling: 0, messages: vec![] }
     };
+    if let Some(kind) = sc.pre_kind.strip_prefix("near:") {
+        // an earlier, healthy run of the same writer with the same image, then the damage
+        let (p0, b0) = (out_path.clone(), BuildResult { code: br.code.clone(), eeprom: br.eeprom.clone(), flash_size: br.flash_size, eeprom_size: br.eeprom_size, ram_size: br.ram_size, ram_filling: br.ram_filling, messages: vec![] });
+        let is_code0 = sc.writer == "code";
+        let _ = std::fs::remove_file(&out_path);
+        let ok = std::panic::catch_unwind(std::panic::AssertUnwindSafe(|| if is_code0 { avra_lib::writer::write_code_hex(p0, &b0).is_ok() } else { avra_lib::writer::write_eeprom_hex(p0, &b0).is_ok() })).unwrap_or(false);
+        if ok {
+            if let Ok(bytes) = std::fs::read(&out_path) {
+                let damaged = damage_hex(&bytes, kind, sc.fill_seed);
+                std::fs::write(&out_path, damaged).map_err(|e| e.to_string())?;
+            }
+        }
+    }
     let mut st = SimState::new(&scratch.root_str());
     st.rules = rules_to_sim(&sc.rules)?;
     let prior: Option<(PathBuf, BuildResult)> = match sc.prior_failed_call.as_deref() {
@@ -527,6 +543,57 @@ pub fn execute(sc: &Scenario, scratch: &Scratch, budget: u64) -> Result<RunOut, 
     }
     let file = std::fs::read(&out_path).ok();
     Ok(RunOut { result: run.result, file, state: run.state, second: None, switches: 0, alone: None })
+}
+
+/// What an interrupted or older run can leave at the output path, made from the right file.
+fn damage_hex(bytes: &[u8], kind: &str, seed: u64) -> Vec<u8> {
+    let mut r = Rng::new(seed ^ 0xDA3A6E);
+    // offsets just after each line end
+    let mut bounds: Vec<usize> = bytes.iter().enumerate().filter(|(_, b)| **b == b'\n').map(|(i, _)| i + 1).collect();
+    if bounds.last() != Some(&bytes.len()) {
+        bounds.push(bytes.len());
+    }
+    let text = String::from_utf8_lossy(bytes).into_owned();
+    match kind {
+        "no-eof" => match text.rfind(":00000001FF") {
+            Some(p) => bytes[..p].to_vec(),
+            None => bytes.to_vec(),
+        },
+        "cut-record" => {
+            if bounds.len() < 2 {
+                return vec![];
+            }
+            bytes[..bounds[r.usize(bounds.len() - 1)]].to_vec()
+        }
+        "cut-byte" => bytes[..r.usize(bytes.len().max(1))].to_vec(),
+        "addr-shift" => {
+            // one data record moved by 16 bytes (checksum kept valid)
+            let lines: Vec<&str> = text.split_inclusive('\n').collect();
+            let data: Vec<usize> = lines.iter().enumerate().filter(|(_, l)| l.len() >= 11 && l.starts_with(':') && &l[7..9] == "00").map(|(i, _)| i).collect();
+            if data.is_empty() {
+                return bytes.to_vec();
+            }
+            let k = data[r.usize(data.len())];
+            let l = lines[k].trim_end();
+            let mut raw: Vec<u8> = (1..l.len() - 1).step_by(2).filter_map(|i| u8::from_str_radix(&l[i..i + 2], 16).ok()).collect();
+            if raw.len() < 5 {
+                return bytes.to_vec();
+            }
+            raw.pop(); // checksum
+            let addr = (((raw[1] as u16) << 8) | raw[2] as u16).wrapping_add(16);
+            raw[1] = (addr >> 8) as u8;
+            raw[2] = addr as u8;
+            let sum: u8 = raw.iter().fold(0u8, |a, b| a.wrapping_add(*b));
+            raw.push(sum.wrapping_neg());
+            let newl = format!(":{}{}", raw.iter().map(|b| format!("{:02X}", b)).collect::<String>(), &lines[k][l.len()..]);
+            let mut out = String::new();
+            for (i, x) in lines.iter().enumerate() {
+                out.push_str(if i == k { &newl } else { x });
+            }
+            out.into_bytes()
+        }
+        _ => bytes.to_vec(),
+    }
 }
 
 fn execute_duo(sc: &Scenario, duo: &Duo, scratch: &Scratch, st: SimState, br: BuildResult, out_path: PathBuf) -> Result<RunOut, String> {
@@ -628,14 +695,16 @@ pub fn judge(sc: &Scenario, out: &RunOut, seed: u64) -> Option<Violation> {
         // nothing is injected here: with another caller at work below the same missing directory
         // each call ends as it ends alone
         let (d1, d2) = (matches!(out.result, Ok(Ok(()))), matches!(r2, Ok(Ok(()))));
-        if sc.rules.is_empty() && sc.write_cap == 0 && sc.fsize_limit.is_none() && (a1, a2) != (d1, d2) {
+        // (the other direction is legitimate: a call that creates the directory lets the other
+        // one succeed where it fails alone)
+        if sc.rules.is_empty() && sc.write_cap == 0 && sc.fsize_limit.is_none() && ((a1 && !d1) || (a2 && !d2)) {
             return Some(Violation {
                 property: "C07".into(),
                 engine: "hexio".into(),
                 class: "differs-from-the-same-call-alone".into(),
                 signature: format!("class=differs-from-the-same-call-alone writer={} len={} duo missing-parent", sc.writer, len_class(sc.len)),
                 seed,
-                expected: "two callers writing different files below the same missing directory: each call returns what it returns when it runs alone".into(),
+                expected: "two callers writing different files below the same missing directory: a call that succeeds alone succeeds next to the other one".into(),
                 observed: json!({"alone_ok": [a1, a2], "together_ok": [d1, d2], "first": format!("{:?}", out.result), "second": format!("{:?}", r2), "trace_tail": trace_tail(&out.state.trace, 16)}),
                 scenario: serde_json::to_value(sc).unwrap(),
             });
@@ -881,6 +950,7 @@ pub fn worker(cfg: &WorkerCfg, emit: &mut dyn FnMut(Violation)) -> Stats {
         stats.probe("fault_on_final_crlf_write", out.state.trace.iter().any(|e| e.call == Call::Write && e.rule >= 0 && e.req == 2));
         stats.probe("pre_existing_longer_file", sc.pre_existing > 0 && sc.pre_kind.is_empty());
         stats.probe("output_path_is_a_directory", sc.pre_kind == "dir");
+        stats.probe("output_path_holds_a_damaged_copy_of_the_right_file", sc.pre_kind.starts_with("near:") && sc.pre_kind != "near:exact");
         stats.probe("output_path_is_a_symbolic_link", sc.pre_kind == "symlink" || sc.pre_kind == "dangling");
         stats.probe("two_callers_below_the_same_missing_directory", sc.missing_parent && sc.duo.is_some() && out.switches > 0);
         stats.probe("output_directory_missing", sc.missing_parent);
